@@ -68,7 +68,11 @@ event_sort("enqueueSent", "obj")
 @contract(SEND, "AxolotlSendLayer.send")
 def send(self: Obj("AxolotlSendLayer"), node: Obj("ProtocolTreeNode")):
     # a message stanza never goes down as it came (it carries the plaintext payload): it is handed to the encrypting path, once
-    ensures(implies(node.tag == "message" and n_events("toLower") > 0, False) or True)
+    # (the one exception the library makes: a recipient for whom the server returned NO key bundle at all was put on skipEncJids by
+    # getKeysFor and is written to unencrypted from then on - by design; in a conversation among accounts that run this stack every
+    # account has uploaded keys, so the list stays empty: contracts/C03_sendpaths.py, getKeysFor)
+    ensures(implies(node.tag == "message" and attr(node, "to") not in self.skipEncJids,
+                    n_events("processPlaintextNodeAndSend") == 1 and n_events("toLower") == 0))
     ensures(implies(node.tag != "message", n_events("toLower") == 1 and same_obj(event_arg("toLower", 0), node)
                     and n_events("processPlaintextNodeAndSend") == 0))
     ensures(n_events("toLower") + n_events("processPlaintextNodeAndSend") == 1)
